@@ -35,7 +35,9 @@ run_one() {
   expect=$(grep -o '^# expect: .*' "$patch" | head -1 | sed 's/^# expect: //')
   hits=$(echo "$out" | grep -E '^(VIOLATED|UNDECIDED)' | awk '{print $2}' | sort -u | tr '\n' ' ')
   if [ $rc -ne 0 ]; then r=killed; else r=survived; fi
-  echo "{\"mutant\":\"$name\",\"result\":\"$r\",\"expected\":\"$expect\",\"reported\":\"$hits\"}"
+  kind=breaking; ok=false
+  if [ "$expect" = none ]; then kind=benign; [ $r = survived ] && ok=true; else [ $r = killed ] && ok=true; fi
+  echo "{\"mutant\":\"$name\",\"kind\":\"$kind\",\"result\":\"$r\",\"as_expected\":$ok,\"expected\":\"$expect\",\"reported\":\"$hits\"}"
   rm -rf "$dir"
 }
 export -f run_one
